@@ -24,8 +24,8 @@ from common import Ctx, frac, run_driver
 from translate import ktn_cfg, similarity as sim_tr
 
 PROP = "C03"
-LEAN_MODULE = "TopSearch.Props.C03"
-LEAN_FILES = ["TopSearch.Props.C03", "TopSearch.Lemmas.Merge", "TopSearch.Model.Merge"]
+LEAN_MODULE = "TopSearch.Props.C03Order"
+LEAN_FILES = ["TopSearch.Props.C03", "TopSearch.Props.C03Order", "TopSearch.Lemmas.Merge", "TopSearch.Model.Merge"]
 EXTRA_TARGETS = ["TopSearch.Model.Merge", "TopSearch.Gen.Ktn", "TopSearch.Gen.Similarity",
                  "TopSearch.Drv.Util"]
 _P = "TopSearch.Props.C03."
@@ -39,7 +39,8 @@ REQUIRED = [_P + n for n in [
     "C03_gate_stream", "C03_gate_stream_from_empty", "C03_minima_stream_any_relation",
     "C03_offered_minimum_represented", "C03_ts_minima_represented", "C03_standard_similarity",
     "C03_both_lookups_first_stores_twice", "C03_symmetry_needed",
-]]
+]] + ["TopSearch.Props.C03Order." + n for n in
+      ("reps_length_le", "representatives_same_size", "order_matters_without_transitivity")]
 RULE = ("cases = (network state, offer) transitions compared model-vs-implementation after the offer "
         "(test_new_minimum / test_new_ts / add_network / direct test_same and is_new_* queries); a case is "
         "non-trivial when the network is non-empty, i.e. the offer is decided by at least one comparison; "
